@@ -24,9 +24,9 @@ var rigPool = sync.Pool{New: func() interface{} { return NewStepRig(1) }}
 func stepAspects(prop string) int {
 	switch prop {
 	case "C01":
-		return BadState | BadMem | BadPortOut | BadPanic
+		return BadState | BadMem | BadPortOut | BadPanic | BadDirect
 	case "C05":
-		return BadBus | BadPortLog | BadPanic
+		return BadBus | BadPortLog | BadPanic | BadDirect
 	}
 	return 0
 }
@@ -86,7 +86,7 @@ func runStepSweep(c *Ctx, prop string) {
 	aspects := stepAspects(prop)
 	distinct := mon.NewDistinct(6_000_000)
 	var mu sync.Mutex
-	var evals, nontrivial, busEvents, wrapPC, portEvents, taken, untaken, repeats int64
+	var evals, nontrivial, busEvents, wrapPC, portEvents, taken, untaken, repeats, preHalted, directRuns int64
 	encSeen := map[int]int64{}
 	violEnc := map[string]int{}
 
@@ -112,6 +112,18 @@ func runStepSweep(c *Ctx, prop string) {
 	c.R.Set("encodings_seen_warn_free", int64(len(encs)-lost))
 	c.R.Set("warn_scan_steps", int64(wsteps))
 	c.R.Set("encodings_warn_free_but_outside_pinned_scope", int64(extra))
+	if extra > 0 {
+		// the emulator now executes encodings the reference model does not cover:
+		// "every implemented encoding" can no longer be claimed until the model's
+		// scope (ref.DDInScope/EDInScope) is extended
+		var names []string
+		for _, e := range AllEncodings() {
+			if !inScope[e.Key()] && !warned[e.Key()] && len(names) < 12 {
+				names = append(names, e.String())
+			}
+		}
+		c.R.Inconclusive(fmt.Sprintf("%d encodings outside the reference model's scope execute without the 'invalid code' warning (%v): the model must be extended before %s can be claimed for them", extra, names, prop))
+	}
 
 	Parallel(len(encs), func(si int) {
 		enc := encs[si]
@@ -119,14 +131,30 @@ func runStepSweep(c *Ctx, prop string) {
 		defer rigPool.Put(rig)
 		r := mon.NewRng(mon.Hash(uint64(c.Seed), uint64(enc.Key()), 0xC01))
 		rig.Refill(r.U64())
-		var lev, lnt, lbus, lwrap, lport, ltk, lutk, lrep int64
+		var lev, lnt, lbus, lwrap, lport, ltk, lutk, lrep, lhalt, ldirect int64
 		for k := 0; k < n; k++ {
 			if k&1023 == 1023 {
 				rig.Refill(r.U64())
 			}
 			sc := MakeStepCase(enc, r, k)
+			// every 16th case: the halted indication is already true (it is sticky;
+			// Step must behave identically); every 8th case also runs on a bundled
+			// memory type handed to the CPU directly
+			sc.PreHALT = k%16 == 9
+			sc.NoHandlers = k%4 == 3
+			rig.Direct = 0
+			if k%8 == 5 {
+				rig.Direct = 1 + (k/8)%2
+			}
 			o := rig.Run(&sc)
+			rig.Direct = 0
 			lev++
+			if sc.PreHALT {
+				lhalt++
+			}
+			if k%8 == 5 {
+				ldirect++
+			}
 			if !o.Info.InScope {
 				// generator and model disagree on scope: harness bug
 				c.R.Inconclusive("reference model reports out-of-scope for " + enc.String())
@@ -179,6 +207,8 @@ func runStepSweep(c *Ctx, prop string) {
 		taken += ltk
 		untaken += lutk
 		repeats += lrep
+		preHalted += lhalt
+		directRuns += ldirect
 		encSeen[enc.Key()] += lev
 		mu.Unlock()
 	})
@@ -214,6 +244,7 @@ func runStepSweep(c *Ctx, prop string) {
 					f := st.AF.Lo
 					sc.Pre = st
 					sc.Pre.AF.Lo = f
+					sc.MoveCPU = k > 0 && r.Intn(6) == 0
 					o := rig.Run(&sc)
 					ls++
 					trail = append(trail, enc.String())
@@ -272,6 +303,8 @@ func runStepSweep(c *Ctx, prop string) {
 	c.R.Set("conditional_taken", taken)
 	c.R.Set("conditional_untaken", untaken)
 	c.R.Set("block_repeats", repeats)
+	c.R.Set("steps_with_HALT_already_true", preHalted)
+	c.R.Set("steps_also_run_on_DumbMemory_or_MapMemory_directly", directRuns)
 	c.R.Set("encodings_covered", int64(len(encSeen)))
 	c.R.Set("states_per_encoding", int64(n))
 	c.R.Set("exhaustive", false)
@@ -280,7 +313,7 @@ func runStepSweep(c *Ctx, prop string) {
 	}
 	switch prop {
 	case "C01":
-		c.R.Set("rule", "every implemented encoding (930, all seven decode tables) x n boundary-biased pre-states (F and displacement cycled through all 256 values, PC straddling FFFF in ~1/8, pointers at/near 0000/FFFF/PC/SP), pseudo-random memory and device bytes; one emulator Step vs one reference-model Step; plus chains of 48 random implemented instructions executed by ONE CPU object on an instruction tape (post-state of a Step = pre-state of the next) to expose state leaking between consecutive operations; compared: all registers, F under the tolerance mask, I, IFF1/2, IM, HALT, full memory image, bytes sent to ports. A case is non-trivial when the Step changed a register other than PC/R, wrote memory, or touched a port or data byte; distinct = distinct (encoding, case index, pre-state, device seed) hashes among the non-trivial ones (sampled 1/7 beyond the first 4096 per encoding, exact set capped at 6M: a lower bound)")
+		c.R.Set("rule", "every implemented encoding (930, all seven decode tables) x n boundary-biased pre-states (F and displacement cycled through all 256 values, PC straddling FFFF in ~1/8, pointers at/near 0000/FFFF/PC/SP), pseudo-random memory and device bytes, the halted indication already true in 1/16 of cases, no RETN/RETI handler registered in 1/4 of cases, 1/8 of cases also executed on z80.DumbMemory / a fully populated z80.MapMemory handed to the CPU directly (outcome must not depend on the memory's type); one emulator Step vs one reference-model Step; plus chains of 48 random implemented instructions executed by ONE CPU object on an instruction tape (post-state of a Step = pre-state of the next) to expose state leaking between consecutive operations (every ~6th Step continues on a by-value copy of the CPU struct while the old struct is scribbled over); compared: all registers, F under the tolerance mask, I, IFF1/2, IM, HALT, full memory image, bytes sent to ports. A case is non-trivial when the Step changed a register other than PC/R, wrote memory, or touched a port or data byte; distinct = distinct (encoding, case index, pre-state, device seed) hashes among the non-trivial ones (sampled 1/7 beyond the first 4096 per encoding, exact set capped at 6M: a lower bound)")
 	case "C05":
 		c.R.Set("rule", "same workload as C01; compared per Step: multiset of memory reads (addr,value), multiset of memory writes (addr,value) and the ordered port log (direction, port, value) of the emulator against the reference model's bus log; non-trivial/distinct as in C01")
 	}
